@@ -89,12 +89,11 @@ def sensitivity() -> int:
                                    capture_output=True, text=True, env=e, cwd=base)
                 ok = r.returncode == 1 and "VIOLATION" in r.stdout
                 rows.append((name, prop, "detected" if ok else f"MISSED (exit {r.returncode})"))
+                print("sensitivity", *rows[-1], flush=True)
                 if not ok:
                     missed.append((name, prop))
         finally:
             subprocess.run(["git", "-C", env.REPO, "worktree", "remove", "--force", d])
-    for r in rows:
-        print("sensitivity", *r, flush=True)
     print(f"sensitivity: {len(rows) - len(missed)} detected, {len(missed)} missed")
     return len(missed)
 
